@@ -131,6 +131,12 @@ Theorem C10_translated_supported_versions : gen_supported_versions_wire = Ok sup
 Proof. exact gen_supported_versions_wire_model. Qed.
 Print Assumptions C10_translated_supported_versions.
 
+(* OnlineKey::new AS TRANSLATED: a fresh signer (its seed is the parameter) carrying the list of supported versions *)
+Theorem C10_translated_online_key_new : forall online_seed,
+  gen_online_key_new online_seed = Ok (online_seed, supported_versions_wire).
+Proof. exact gen_online_key_new_model. Qed.
+Print Assumptions C10_translated_online_key_new.
+
 (* ---- the key set-up of Server::new AS TRANSLATED (three consecutive statements): with a plaintext seed it builds
    exactly the model's server — the IETF responder first, then the classic one, BOTH certified under the one
    long-term key made from the configured seed, each with its own fresh online key — or fails where the model
